@@ -400,14 +400,16 @@ Proof.
   - intros H E. apply aget_None_notin in E. contradiction.
 Qed.
 
-Definition merge_free (ops : list op) : Prop :=
-  forall o, In o ops -> (match o with OMerge _ _ _ _ => false | _ => true end) = true.
+(* the history lift, for any class of operations whose single steps preserve identity properties *)
+Section Histories.
+Variable okop : op -> bool.
+Hypothesis Hstep : forall s o, SInv s -> okop o = true -> evolves (sg s) (sg (fst (sstep s o))).
 
-Theorem identity_kept_histories ops : forall s,
-  SInv s -> merge_free ops -> evolves (sg s) (sg (srun ops s)).
+Theorem identity_kept_histories_gen ops : forall s,
+  SInv s -> (forall o, In o ops -> okop o = true) -> evolves (sg s) (sg (srun ops s)).
 Proof.
   induction ops as [|o r IH]; intros s HI Hmf; simpl; [apply evolves_refl|].
-  assert (H1 : evolves (sg s) (sg (fst (sstep s o)))) by (apply identity_kept_step; [exact HI | apply Hmf; now left]).
+  assert (H1 : evolves (sg s) (sg (fst (sstep s o)))) by (apply Hstep; [exact HI | apply Hmf; now left]).
   assert (H2 : evolves (sg (fst (sstep s o))) (sg (srun r (fst (sstep s o))))).
   { apply IH; [now apply SInv_step | intros o' Ho'; apply Hmf; now right]. }
   intros id ps ps' Ha Hc.
@@ -428,11 +430,4 @@ Proof.
       apply present_iff in Hin. contradiction. }
     rewrite (Habs r (fst (sstep s o))) in Hc; [discriminate | now apply SInv_step | exact Hlt | exact Eb].
 Qed.
-
-Theorem identity_kept_all pre ops :
-  merge_free ops ->
-  evolves (sg (srun pre init_store)) (sg (srun (pre ++ ops) init_store)).
-Proof.
-  intro H. unfold srun at 2. rewrite fold_left_app. apply identity_kept_histories; [|exact H].
-  apply SInv_run. apply SInv_init.
-Qed.
+End Histories.
